@@ -5,10 +5,11 @@
 //!      when it supplied one;
 //!  (c) a later Content-Type replaces an earlier one whatever the letter case of either, so at most one is sent;
 //!  (d) a supplied Content-Length only sets the declared body length (it is not echoed as a second header);
-//!  (e) all of this also for a header list handed to the constructor `Response::new`.
+//!  (e) all of this also for a header list handed to the constructor `Response::new`;
+//!  (f) and across the builder steps that rebuild or copy the response (`with_data`, `boxed`, `clone`, `with_status_code`).
 use verif_replay::*;
 
-fn exchange(build: impl FnOnce() -> tiny_http::Response<std::io::Cursor<Vec<u8>>>) -> String {
+fn exchange<R: std::io::Read>(build: impl FnOnce() -> tiny_http::Response<R>) -> String {
     let server = tiny_http::Server::http("127.0.0.1:0").unwrap();
     let mut c = connect(&server);
     send(&mut c, b"GET /x HTTP/1.1\r\nHost: a\r\nConnection: close\r\n\r\n");
@@ -74,6 +75,21 @@ fn main() {
     let order: Vec<String> = header_pairs(&head).into_iter().filter(|(n, _)| n.starts_with("X-")).map(|(n, v)| format!("{}={}", n, v)).collect();
     if ct != ["b/two"] || cl != ["5"] || order != ["X-First=1", "X-Second=2"] || head.to_ascii_lowercase().contains("injected") {
         bad.push(format!("header list given to Response::new: Content-Type {:?}, Content-Length {:?}, ordinary {:?}, reserved on the wire: {}", ct, cl, order, head.to_ascii_lowercase().contains("injected")));
+    }
+    // (f) the rules hold across the steps that rebuild / copy the response between two add_header calls
+    let cur = || std::io::Cursor::new(b"data!".to_vec());
+    let steps: Vec<(&str, Box<dyn FnOnce() -> String>)> = vec![
+        ("with_data", Box::new(move || exchange(|| tiny_http::Response::from_string("x").with_header(hdr("Content-Type", "a/one")).with_header(hdr("X-K", "1")).with_data(cur(), Some(5)).with_header(hdr("content-type", "b/two")).with_header(hdr("Upgrade", "injected"))))),
+        ("boxed", Box::new(|| exchange(|| tiny_http::Response::from_string("x").with_header(hdr("Content-Type", "a/one")).with_header(hdr("X-K", "1")).boxed().with_header(hdr("content-type", "b/two")).with_header(hdr("Upgrade", "injected"))))),
+        ("clone", Box::new(|| exchange(|| tiny_http::Response::empty(200).with_header(hdr("Content-Type", "a/one")).with_header(hdr("X-K", "1")).clone().with_header(hdr("content-type", "b/two")).with_header(hdr("Upgrade", "injected"))))),
+        ("with_status_code", Box::new(|| exchange(|| tiny_http::Response::from_string("x").with_header(hdr("Content-Type", "a/one")).with_header(hdr("X-K", "1")).with_status_code(404).with_chunked_threshold(1).with_header(hdr("content-type", "b/two")).with_header(hdr("Upgrade", "injected"))))),
+    ];
+    for (what, run) in steps {
+        let head = run();
+        let (ct, k) = (values(&head, "Content-Type"), values(&head, "X-K"));
+        if ct != ["b/two"] || k != ["1"] || head.to_ascii_lowercase().contains("injected") {
+            bad.push(format!("Content-Type set, then `{}`, then Content-Type set again: sent Content-Type {:?}, X-K {:?}, reserved on the wire: {}", what, ct, k, head.to_ascii_lowercase().contains("injected")));
+        }
     }
     verdict(bad.is_empty(), &format!("header policy: {}", if bad.is_empty() { "as the property says".into() } else { bad.join(" | ") }));
 }
